@@ -50,6 +50,35 @@ def r_depends(c):
             c.check("depends_on" in m.fields(q), "R07-DEPENDS", short(q),
                     "has-depends_on-field", m.loc(ci.module, ci.node),
                     "the result has no depends_on")
+    # a result that stands for generated code carries the dependencies collected
+    # while generating it; only inputs (no producing instruction) start empty
+    n_sites = 0
+    names = {short(q) for q in subs}
+    for _mi, fd in m.all_functions(modules=[LC]):
+        if m.enclosing_function(fd) is not None:
+            continue
+        for call in ast.walk(fd):
+            if isinstance(call, ast.Call) and ast.unparse(call.func) in names:
+                dep = None
+                if len(call.args) >= 3:
+                    dep = call.args[2]
+                for k in call.keywords:
+                    if k.arg == "depends_on":
+                        dep = k.value
+                if dep is None:
+                    continue
+                n_sites += 1
+                empty = ast.unparse(dep) in ("frozenset()", "frozenset([])", "frozenset(())")
+                is_input = fd.name in ("map_placeholder", "map_size_param")
+                c.check((not empty) or is_input, "R07-DEPENDS",
+                        m.qualname(fd).replace("pytato.", "", 1),
+                        f"{ast.unparse(call.func)}:depends_on={m.frag(dep, 30)}",
+                        m.loc(LC, call),
+                        f"{ast.unparse(call.func)} for generated code is created with an "
+                        "empty dependency set: consumers of this result are not ordered "
+                        "after the stores its expression reads")
+    if n_sites < 8:
+        raise AnalysisError(f"only {n_sites} ImplementedResult constructions found")
     # consumers hand the context's dependencies to the instruction they create
     for fn in ("add_store",):
         fd = m.func(f"{LC}.{fn}")
@@ -147,6 +176,17 @@ def r_strategy(c):
     c.check(len(sr) == 1 and "expr.tags_of_type(ImplStored)" in ast.unparse(sr[0].value),
             "R07-STRATEGY", "CodeGenMapper.map_index_lambda", "stored-iff-tag-or-needed",
             where, "storing is no longer triggered by the ImplStored tag")
+    # the result of a named entry is looked up under the container's own entry,
+    # not under the (possibly tagged) NamedArray object at hand
+    from pta.pat import has
+    na = m.func(CGM + ".map_named_array")
+    ep, sp = na.args.args[1].arg, na.args.args[2].arg
+    c.check(has(na, f"{sp}.results[{ep}._container[{ep}.name]]"), "R07-STRATEGY",
+            "CodeGenMapper.map_named_array", "result-looked-up-under-container-entry",
+            m.loc(LC, na),
+            "the result of a named array is looked up under the NamedArray object itself: "
+            "a tagged copy of the entry is not found (tags change whether code "
+            "generation succeeds)")
     # outputs: ImplStored stripped (no redundant store/load), inputs untouched
     g = m.func(LC + ".generate_loopy")
     gs = ast.unparse(g)
@@ -257,7 +297,7 @@ def r_tagapi(c):
 SPEC = Spec(
     prop="C07",
     rules=[r_depends, r_strategy, r_lowering_tags, r_tagapi],
-    floors={"R07-DEPENDS": 8, "R07-STRATEGY": 9, "R07-LOWERING-TAGS": 40,
+    floors={"R07-DEPENDS": 15, "R07-STRATEGY": 9, "R07-LOWERING-TAGS": 40,
             "R07-TAGAPI": 40},
     explanation=(
         "R07-DEPENDS (sibling must-call): every ImplementedResult subclass's "
